@@ -1,7 +1,8 @@
 """C18 — stream I/O failures surface and never corrupt what was produced (DESIGN.md §5 C18)."""
 from rules.stream import RULES_C18 as RULES, STREAM_CONFIGS
 from rules.agree import r20_1
-RULES = list(RULES) + [('R20.1', r20_1)]
+from rules.stream import r08_3
+RULES = list(RULES) + [('R20.1', r20_1), ('R08.3', r08_3)]
 
 LEVEL = 'other'
 THOROUGH_CONFIGS = ['default', 'std', 'logging']
